@@ -813,12 +813,15 @@ impl UndoOperation for InsertColumn {
 }
 
 mod scroll_util {
-    use crate::{editor::EditorError, EngineResult};
+    use crate::{editor::EditorError, EngineResult, TextPane};
 
     pub(crate) fn scroll_layer_up(edit_state: &mut crate::editor::EditState, layer: usize) -> EngineResult<()> {
         if let Some(layer) = edit_state.get_buffer_mut().layers.get_mut(layer) {
-            let lines = layer.lines.remove(0);
-            layer.lines.push(lines);
+            let height = layer.get_height().max(0) as usize;
+            if layer.lines.len() < height {
+                layer.lines.resize(height, crate::Line::default());
+            }
+            layer.lines[..height].rotate_left(usize::from(height > 0));
             Ok(())
         } else {
             Err(EditorError::InvalidLayer(layer).into())
@@ -826,11 +829,11 @@ mod scroll_util {
     }
     pub(crate) fn scroll_layer_down(edit_state: &mut crate::editor::EditState, layer: usize) -> EngineResult<()> {
         if let Some(layer) = edit_state.get_buffer_mut().layers.get_mut(layer) {
-            if let Some(lines) = layer.lines.pop() {
-                layer.lines.insert(0, lines);
-            } else {
-                log::error!("Layer {layer} has no lines");
+            let height = layer.get_height().max(0) as usize;
+            if layer.lines.len() < height {
+                layer.lines.resize(height, crate::Line::default());
             }
+            layer.lines[..height].rotate_right(usize::from(height > 0));
             Ok(())
         } else {
             Err(EditorError::InvalidLayer(layer).into())
